@@ -530,6 +530,12 @@ fn run_layout_case(
         Ok(Ok(d)) => d,
         Ok(Err(e)) => {
             rep.hist("layout_scripts", "rejected");
+            viol(
+                rep,
+                "the compiler rejects a well-typed type environment",
+                "rejected-well-typed",
+                json!({"kind": "layout", "script": script}),
+            );
             rep.notes.push(format!("generator produced a rejected script: {}", strip_ansi(&format!("{e}")).lines().take(6).collect::<Vec<_>>().join(" / ")));
             return;
         }
